@@ -393,6 +393,9 @@ pub enum EvOp {
     /// The server stops (all clients are dropped) / starts again.
     StopServer,
     StartServer,
+    /// The server starts, accepts client `c` and the game emits E1 to everyone, all before the
+    /// server's first running frame.
+    StartServerWithEmit(u8),
     /// The transport closes `c`'s connection inside the server's next frame, after the library's
     /// send systems queued that frame's messages and before the transport flushes them.
     DisconnectAfterSend(u8),
@@ -460,6 +463,7 @@ impl EvOp {
             EvOp::StopServer => "stop server".into(),
             EvOp::StartServer => "start server".into(),
             EvOp::StartServerWith(c) => format!("start server and connect c{c} in the same frame"),
+            EvOp::StartServerWithEmit(c) => format!("start server, connect c{c} and emit E1 to all before the first running frame"),
             EvOp::EmitCStale(c) => format!("c{c} emits CM referencing an entity left over from an earlier session"),
             EvOp::DisconnectAfterSend(c) => format!("connection of c{c} closed after the server's send systems of this frame"),
             EvOp::LateDisconnect(c) => format!("disconnect c{c} after its messages reached the server"),
@@ -654,7 +658,7 @@ impl EvCell {
             EvOp::TouchConnection(c) | EvOp::DisconnectSlowly(c) => Self::connected(x, c as usize),
             EvOp::StopServer => x.sim.server_running(),
             EvOp::StartServer => !x.sim.server_running(),
-            EvOp::StartServerWith(c) => !x.sim.server_running() && !Self::connected(x, c as usize),
+            EvOp::StartServerWith(c) | EvOp::StartServerWithEmit(c) => !x.sim.server_running() && !Self::connected(x, c as usize),
             EvOp::LateDisconnect(c) | EvOp::DisconnectAfterSend(c) => Self::connected(x, c as usize),
             EvOp::EmitCStale(c) => Self::connected(x, c as usize) && Self::stale_entity(x, c as usize).is_some(),
             EvOp::PreMap(c) => {
@@ -732,6 +736,11 @@ impl EvCell {
             EvOp::StartServerWith(c) => {
                 x.sim.start_server();
                 x.sim.connect(c as usize);
+            }
+            EvOp::StartServerWithEmit(c) => {
+                x.sim.start_server();
+                x.sim.connect(c as usize);
+                self.apply_ev_op(x, EvOp::EmitS(SK::E1, Mode::Broadcast, None));
             }
             EvOp::LateDisconnect(c) => x.late_disconnect = Some(c as usize),
             EvOp::EmitCStale(c) => {
